@@ -48,13 +48,11 @@ class TimeActiveDecorator(TriggerHandlerDecorator, AutoKwargsDecorator):
             else:
                 now = dt_now()
 
-            for time_spec in self.args:
-                _LOGGER.debug("time_spec %s, %s", time_spec, self)
-                _LOGGER.debug("time_active now %s, %s", now, self)
-                if await trigger.TrigTime.timer_active_check(time_spec, now, self.dm.startup_time):
-                    self.last_trig_time = time.monotonic()
-                    return True
-            return False
+            _LOGGER.debug("time_spec %s, %s", self.args, self)
+            _LOGGER.debug("time_active now %s, %s", now, self)
+            # the arguments are checked together: any of the positive ones and none of the "not" ones
+            if not await trigger.TrigTime.timer_active_check(self.args, now, self.dm.startup_time):
+                return False
 
         self.last_trig_time = time.monotonic()
         return True
